@@ -47,7 +47,44 @@ def _cases():
         _typedefs_case(tests),
         _gettype_case(tests),
         _bar_case(tests),
+        _sletter_case(tests),
+        {'name': 'gtkfrob', 'expected': os.path.join(tests, 'GtkFrob-1.0-expected.gir'),
+         'blank': [b' shared-library="libgtkfrob-1.0.so"', b' shared-library=""'],
+         'job': {'ns': 'GtkFrob', 'version': '1.0', 'id_prefixes': ['Gtk'], 'sym_prefixes': ['gtk_frob'],
+                 'includes': ['GObject-2.0'], 'program': 'bin/dumper', 'dump': {}, 'error_quarks': {},
+                 'options': ['--quiet', '--no-libtool', '--reparse-validate', '--warn-all', '--warn-error', '--pkg=gobject-2.0'],
+                 'file_order': ['gtkfrob.c', 'gtkfrob.h'], 'order_before': [], 'comments': [], 'deps': [],
+                 'decls': [{'k': 'function', 'name': 'gtk_frob_language_manager_get_default', 'ret': ['void'], 'params': [],
+                            'file': 'gtkfrob.h', 'line': 11}]}},
     ]
+
+
+def _sletter_case(tests):
+    """tests/scanner/sletter.h: a one-letter identifier prefix, error-quark functions paired with
+    enumerations that are not registered types (through the dump's <error-quark> entries)."""
+    h = 'sletter.h'
+    DBL = ['basic', 'double']
+
+    def enum(name, base, line, end):
+        return {'k': 'typedef_enum', 'name': name, 'flags': False, 'file': h, 'line': line, 'end': end,
+                'members': [['%s_CODE%d' % (base, i), i] for i in (1, 2, 3)]}
+    decls = [
+        {'k': 'typedef_struct', 'name': 'SPoint', 'tag': None, 'file': h, 'line': 8,
+         'members': [{'name': 'x', 'type': DBL}, {'name': 'y', 'type': DBL}]},
+        {'k': 'function', 'name': 's_hello', 'ret': ['void'], 'params': [], 'file': h, 'line': 14},
+        enum('SSpawnError', 'S_SPAWN_ERROR', 17, 22),
+        {'k': 'function', 'name': 's_spawn_error_quark', 'ret': ['named', 'GQuark'], 'params': [], 'file': h, 'line': 25},
+        enum('SDBusError', 'S_DBUS_ERROR', 28, 33),
+        {'k': 'function', 'name': 's_dbus_error_quark', 'ret': ['named', 'GQuark'], 'params': [], 'file': h, 'line': 36},
+    ]
+    quarks = {'s_spawn_error_quark': '<error-quark function="s_spawn_error_quark" domain="s-spawn-error"/>',
+              's_dbus_error_quark': '<error-quark function="s_dbus_error_quark" domain="s-dbus-error"/>'}
+    return {'name': 'sletter', 'expected': os.path.join(tests, 'SLetter-1.0-expected.gir'),
+            'blank': [b' shared-library="libsletter-1.0.so"', b' shared-library=""'],
+            'job': {'ns': 'SLetter', 'version': '1.0', 'id_prefixes': ['S'], 'sym_prefixes': [],
+                    'includes': ['Gio-2.0'], 'program': 'bin/dumper', 'dump': {}, 'error_quarks': quarks,
+                    'options': ['--quiet', '--no-libtool', '--reparse-validate', '--warn-all', '--warn-error', '--c-include=sletter.h'],
+                    'file_order': ['sletter.c', h], 'order_before': [], 'comments': [], 'deps': [], 'decls': decls}}
 
 
 def _bar_case(tests):
